@@ -3,6 +3,7 @@ package main
 import (
 	"fmt"
 	"os"
+	"strings"
 
 	btapb "cloud.google.com/go/bigtable/admin/apiv2/adminpb"
 	btpb "cloud.google.com/go/bigtable/apiv2/bigtablepb"
@@ -22,6 +23,10 @@ func init() {
 	})
 	expectedProbes["C17"] = []string{"c17.scan_failed_partway", "c17.limit_cut", "c17.drop_all", "c17.recreated_table", "c17.equal", "c17.real_grpc_transport", "c17.bulk_load"}
 }
+
+// row keys for the single-row requests: the adversarial short keys plus keys longer than 127 and
+// 255 bytes (lengths at which encodings of a key change width)
+var c17Keys = append(append([]string(nil), btRowKeys...), strings.Repeat("k", 128), strings.Repeat("k", 127)+"z", strings.Repeat("L", 300))
 
 func runC17(r *Run) {
 	cfg := r.T.S("cfg")
@@ -70,7 +75,7 @@ func runC17(r *Run) {
 				// bulk load: a few hundred rows in one MutateRows, so that ranges and scans
 				// cover far more rows than any internal batch an engine might use
 				op = btOp{Kind: "MutateRows", Table: tbl}
-				n := 150 + d.n(250)
+				n := 150 + d.n(650) // up to 800 rows: more than any internal batch an engine might use
 				for e := 0; e < n; e++ {
 					muts := mutList{setCell("f1", "q", 1000, "b")}
 					if e%3 == 0 { // a family drop then rewrites some rows and removes others
@@ -113,21 +118,21 @@ func runC17(r *Run) {
 				} else if d.n(3) == 0 {
 					op.RowSet = mRowSet{ranges: []mRange{{c03BoundOf(d.n(15)), c03BoundOf(d.n(15))}}}
 					if d.n(2) == 0 {
-						op.RowSet.keys = []string{btRowKeys[d.n(len(btRowKeys))]}
+						op.RowSet.keys = []string{c17Keys[d.n(len(c17Keys))]}
 					}
 				}
 			case 2:
-				op = btOp{Kind: "CAM", Table: tbl, Key: btRowKeys[d.n(len(btRowKeys))], TrueM: gen.mutations(d, 2, true), FalseM: gen.mutations(d, 2, true)}
+				op = btOp{Kind: "CAM", Table: tbl, Key: c17Keys[d.n(len(c17Keys))], TrueM: gen.mutations(d, 2, true), FalseM: gen.mutations(d, 2, true)}
 				if d.n(2) == 0 {
 					op.Pred = &btpb.RowFilter{Filter: &btpb.RowFilter_CellsPerRowOffsetFilter{CellsPerRowOffsetFilter: int32(d.n(3))}}
 				}
 			case 3:
-				op = btOp{Kind: "RMW", Table: tbl, Key: btRowKeys[d.n(len(btRowKeys))], Rules: genRMWRules(d, gen, r)}
+				op = btOp{Kind: "RMW", Table: tbl, Key: c17Keys[d.n(len(c17Keys))], Rules: genRMWRules(d, gen, r)}
 			case 4:
 				op = btOp{Kind: "MutateRows", Table: tbl}
 				ne := 1 + d.n(3)
 				for e := 0; e < 3; e++ {
-					en := entryIn{Key: btRowKeys[d.n(len(btRowKeys))], Muts: gen.mutations(d, 2, true)}
+					en := entryIn{Key: c17Keys[d.n(len(c17Keys))], Muts: gen.mutations(d, 2, true)}
 					if e < ne {
 						op.Entries = append(op.Entries, en)
 					}
